@@ -30,6 +30,18 @@ def main(argv):
         common.use_repo()
         mod = importlib.import_module(f"vlib.drivers.{pid}")
         return mod.run(tier)
+    except common.CodeUnderTestError as exc:
+        # the code under test raised on an in-domain input: a violation of the property being checked
+        V = common.Verdict(pid, tier, "other")          # an aborted run covers nothing at the claimed level
+        V.add("evaluations", 1)
+        V.violation(f"{pid}|raises|{exc.where}|{exc.exc_type}",
+                    {"kind": "exception_in_code_under_test", "where": exc.where, "exception": exc.exc_type, "message": exc.message,
+                     "traceback": exc.tb_text, "input": exc.item_repr})
+        V.cov["explanation"] = "the run stopped at the first exception raised by the code under test"
+        V.cov["samples"].append({"input": exc.item_repr[:500]})
+        print(exc.tb_text[-1500:])
+        rc = V.finish(rule="aborted run")
+        return rc
     except tlc.TLCError as exc:
         print(f"MACHINERY-FAILURE property={pid}: {exc}")
         return 2
